@@ -113,6 +113,14 @@ def step (s : St) (line : String) : St × String :=
   | ["free", t] => match tabIdx t with
     | some i => ({ s with tabs := s.tabs.set! i ((s.tabs[i]!).free) }, "ok")
     | none => bad
+  -- failing-allocator mode of the harness: arming and the report are no-ops here; `failed <op>` is the
+  -- model's reading of "this operation could not get memory": an error code, every table as it was
+  | ["fail", k] => match k.toNat? with
+    | some k => if k = 0 ∨ k > 1000000 then bad else (s, "ok")
+    | none => bad
+  | ["failinfo"] => (s, "failinfo")
+  | "failed" :: "val" :: _ => (s, "rc=-1")
+  | "failed" :: _ :: _ => (s, rcStr .error)
   | ["bits4", v, f, n] => match hexToNat? v, f.toNat?, n.toNat? with
     | some v, some f, some n =>
       if v < 2^32 ∧ f < 256 ∧ n ≤ 32 then (s, toHex 8 (getBits32 (BitVec.ofNat 32 v) f n).toNat) else bad
